@@ -659,7 +659,7 @@ func TestVerif_C19(t *testing.T) {
 	}, c19Check, "each literal as an entry name (first and below a directory), as stored entry data, and as an extra field") {
 		return
 	}
-	vfRun(t, vfSub[c19Case]{Prop: "C19", Name: "gen", Checks: vfN(40000, 6000000), Gen: c19Gen, Check: c19Check,
+	vfRun(t, vfSub[c19Case]{Prop: "C19", Name: "gen", Checks: vfN(40000, 3000000), Gen: c19Gen, Check: c19Check,
 		Sample: func(c c19Case) any {
 			var es []string
 			for _, e := range c.Entries {
